@@ -296,8 +296,10 @@ func c20DrawCfg(t *rapid.T, name string) config.Local {
 	cfg := config.GetDefaultLocal()
 	cfg.MaxAcctLookback = uint64(rapid.IntRange(1, 8).Draw(t, name+".MaxAcctLookback"))
 	cfg.Archival = true
-	// the LRU caches (what "warm" means for account/resource/kv lookups) cost ~60 MB and >= 0.4 s per open
-	cfg.DisableLedgerLRUCache = rapid.IntRange(0, 3).Draw(t, name+".LRU") != 0
+	// the LRU caches (what "warm" means for account/resource/kv lookups) cost ~60 MB per open: 0.4 s on an idle machine,
+	// measured 10-20 s at load average 200, where they were 80 % of the cost of a case. Node A has them in 1/6 of the
+	// cases, node B (reopened during the history) never.
+	cfg.DisableLedgerLRUCache = name != "A" || rapid.IntRange(0, 5).Draw(t, name+".LRU") != 0
 	cfg.TxPoolSize = 64
 	cfg.VerifiedTranscationsCacheSize = 256
 	cfg.LedgerSynchronousMode = 0
@@ -355,12 +357,15 @@ func c20NewWorld(t *rapid.T, vk *vkCtx) *c20World {
 	}
 	w.cfgA = c20DrawCfg(t, "A")
 	w.cfgB = c20DrawCfg(t, "B")
-	if !w.cfgA.DisableLedgerLRUCache {
-		w.cfgB.DisableLedgerLRUCache = true // at most one of the two pays for the LRU buffers
-	}
 	seq := c20Seq.Add(1)
 	t0 := time.Now()
-	defer func() { w.msOpen += time.Since(t0).Milliseconds() }()
+	defer func() {
+		w.msOpen += time.Since(t0).Milliseconds()
+		if !w.cfgA.DisableLedgerLRUCache {
+			vk.Add("ms-open-ledgers-with-LRU", time.Since(t0).Milliseconds())
+			vk.Add("cases-with-LRU", 1)
+		}
+	}()
 	w.A, err = ledger.OpenLedger(c20Logger(), filepath.Join(w.dir, fmt.Sprintf("a%d", seq)), false, w.genesis, w.cfgA)
 	if err != nil {
 		w.close()
